@@ -16,6 +16,8 @@ Hypotheses are exactly the documented contract: moduli pairwise coprime
 (`Canon ps rs := Forall₂ (fun p r => 0 ≤ r ∧ r < p) ps rs`, which also says `0 < p_i`); both are defined in Lemmas/CRT*.lean.
 -/
 import GivaroModel.Lemmas.CRTSys
+import GivaroModel.Lemmas.CRTPoly
+import GivaroModel.Lemmas.CRTOps
 namespace Givaro.Props.C14
 open Givaro.Model.CRT
 open Givaro.Lemmas.CRT
@@ -211,6 +213,215 @@ theorem functor_congruences (cof : Int → Int → Int) (hcof : CofOK cof) (M d 
     (craApplyNoReduce (craInit cof M d) A e - A) % M = 0 ∧ (craApplyNoReduce (craInit cof M d) A e - e) % d = 0 :=
   cra_congruences hcof hd (Int.isCoprime_iff_gcd_eq_one.mpr hco) A e
 
+/-! ## mixed-radix digits: range, uniqueness, canonical expansion; the value is Mathlib's Chinese remainder -/
+
+/-- for every pairwise coprime moduli list (any length, any sizes) a digit string with `0 ≤ d_i < m_i` is determined by its value -/
+theorem mixed_radix_digits_unique (ps ms ms' : List Int) (h : Canon ps ms) (h' : Canon ps ms')
+    (hv : mrValue ps ms = mrValue ps ms') : ms = ms' :=
+  mr_digits_unique h h' hv
+
+/-- the digits Garner's algorithm produces are *the* mixed-radix expansion of the converted value
+    (`mrDigits ps x = [x mod p_0, (x / p_0) mod p_1, …]`), for both classes and every history; recombination is exact -/
+theorem garner_digits_are_the_expansion (cof : Int → Int → Int) (hcof : CofOK cof) (hi : IntHist) (hr : RnsHist) (rs : List Int) :
+    (PairwiseCoprime (hi.eval cof).primes → Canon (hi.eval cof).primes rs →
+      ((hi.eval cof).rnsToMixedRadix cof rs).2 = mrDigits (hi.eval cof).primes ((hi.eval cof).rnsToRing cof rs).2 ∧
+      mixedRadixToRing (hi.eval cof).primes ((hi.eval cof).rnsToMixedRadix cof rs).2 = ((hi.eval cof).rnsToRing cof rs).2) ∧
+    (PairwiseCoprime (hr.eval cof).primes → Canon (hr.eval cof).primes rs →
+      ((hr.eval cof).rnsToMixedRadix cof rs).2 = mrDigits (hr.eval cof).primes ((hr.eval cof).rnsToRing cof rs).2 ∧
+      mixedRadixToRing (hr.eval cof).primes ((hr.eval cof).rnsToMixedRadix cof rs).2 = ((hr.eval cof).rnsToRing cof rs).2) := by
+  refine ⟨?_, ?_⟩
+  · intro hco hcan
+    obtain ⟨a1, a2, _⟩ := (intHist_good cof hi).answers rs 0
+    have r := int_garner_result hcof _ rs hco.isCoprime hcan
+    rw [a1, a2]
+    exact ⟨digits_eq_mrDigits r.digits r.value r.range, rfl⟩
+  · intro hco hcan
+    obtain ⟨a1, a2, _⟩ := (rnsHist_good cof hr).answers rs 0
+    have r := rns_garner_result hcof _ rs hco.isCoprime hcan
+    rw [a1, a2]
+    exact ⟨digits_eq_mrDigits r.digits r.value r.range, rfl⟩
+
+/-! ## programs: operation lists of any length over any number of objects
+
+`IntOp` / `RnsOp` (Model/CRT.lean): construct, default-construct, copy-construct from another object, assign from another object
+(or itself), `setPrimes`, conversions in both directions, `Reciprocals`, `product` — each naming the object(s) it acts on.
+`intRun cof IntEnv.init ops s` is object `s` after the program `ops`; `intPrimesRun (fun _ => []) ops s` is the moduli list the
+cache-free reading of the program gives that object (its *last moduli set*). -/
+
+/-- the cache invariant holds for every object after every program (one step, lifted by induction over the list) -/
+theorem int_ops_cache_invariant (cof : Int → Int → Int) (ops : List IntOp) (s : Nat) :
+    let o := intRun cof IntEnv.init ops s
+    (o.ck = [] ∨ o.ck = intComputeCk cof o.primes) ∧ (o.prod = 1 ∨ o.prod = prod o.primes) :=
+  intRun_good cof ops IntEnv.init (fun _ => by simp [IntEnv.init, IntSys.empty, IntGood]) s
+
+theorem rns_ops_cache_invariant (cof : Int → Int → Int) (ops : List RnsOp) (s : Nat) :
+    let o := rnsRun cof RnsEnv.init ops s
+    o.ck = [] ∨ o.ck = rnsComputeCk cof o.primes :=
+  rnsRun_good cof ops RnsEnv.init (fun _ => by simp [RnsEnv.init, RnsSys.empty, RnsGood]) s
+
+/-- the state after any program depends only on the last moduli set: the object's primes are those of the cache-free reading,
+    and every answer is a fixed function of them (so any two objects, in any two programs, with the same last moduli set answer alike) -/
+theorem int_ops_depend_only_on_last_moduli (cof : Int → Int → Int) (ops : List IntOp) (s : Nat) (rs : List Int) (a : Int) :
+    let o := intRun cof IntEnv.init ops s
+    let ps := intPrimesRun (fun _ => []) ops s
+    o.primes = ps ∧
+    (o.rnsToMixedRadix cof rs).2 = intRnsToMixedRadix ps (intComputeCk cof ps) rs ∧
+    (o.rnsToRing cof rs).2 = mixedRadixToRing ps (intRnsToMixedRadix ps (intComputeCk cof ps) rs) ∧
+    (o.reciprocals cof).2 = intComputeCk cof ps ∧ o.product.2 = prod ps ∧ o.toRns a = ringToRns ps a := by
+  have hp : (intRun cof IntEnv.init ops s).primes = intPrimesRun (fun _ => []) ops s :=
+    congrFun (intRun_primes cof ops IntEnv.init) s
+  have hg := intRun_good cof ops IntEnv.init (fun _ => by simp [IntEnv.init, IntSys.empty, IntGood]) s
+  obtain ⟨a1, a2, a3, a4, a5⟩ := hg.answers rs a
+  simp only
+  rw [a1, a2, a3, a4, a5, hp]
+  simp
+
+theorem rns_ops_depend_only_on_last_moduli (cof : Int → Int → Int) (ops : List RnsOp) (s : Nat) (rs : List Int) (a : Int) :
+    let o := rnsRun cof RnsEnv.init ops s
+    let ps := rnsPrimesRun (fun _ => []) ops s
+    o.primes = ps ∧
+    (o.rnsToMixedRadix cof rs).2 = rnsRnsToMixedRadix ps (rnsComputeCk cof ps) rs ∧
+    (o.rnsToRing cof rs).2 = mixedRadixToRing ps (rnsRnsToMixedRadix ps (rnsComputeCk cof ps) rs) ∧
+    (o.reciprocals cof).2 = rnsComputeCk cof ps ∧ o.toRns a = ringToRns ps a := by
+  have hp : (rnsRun cof RnsEnv.init ops s).primes = rnsPrimesRun (fun _ => []) ops s :=
+    congrFun (rnsRun_primes cof ops RnsEnv.init) s
+  have hg := rnsRun_good cof ops RnsEnv.init (fun _ => by simp [RnsEnv.init, RnsSys.empty, RnsGood]) s
+  obtain ⟨a1, a2, a3, a4⟩ := hg.answers rs a
+  simp only
+  rw [a1, a2, a3, a4, hp]
+  simp
+
+/-- after any program, on any object whose last moduli set is pairwise coprime, the conversions meet the CRT specification:
+    `RnsToRing` is Mathlib's `Nat.chineseRemainderOfList` of the (modulus, residue) pairs, the digits are its mixed-radix expansion,
+    and the two conversions are mutually inverse -/
+theorem int_ops_conversions_meet_crt_spec (cof : Int → Int → Int) (hcof : CofOK cof) (ops : List IntOp) (s : Nat) (rs : List Int)
+    (hco : PairwiseCoprime (intPrimesRun (fun _ => []) ops s)) (hcan : Canon (intPrimesRun (fun _ => []) ops s) rs)
+    (co : (natPairs (intPrimesRun (fun _ => []) ops s) rs).Pairwise (Function.onFun Nat.Coprime Prod.fst)) :
+    let o := intRun cof IntEnv.init ops s
+    let ps := intPrimesRun (fun _ => []) ops s
+    let x := (o.rnsToRing cof rs).2
+    x = ((Nat.chineseRemainderOfList Prod.snd Prod.fst (natPairs ps rs) co : ℕ) : Int) ∧
+    (o.rnsToMixedRadix cof rs).2 = mrDigits ps x ∧ o.toRns x = rs ∧
+    (∀ a : Int, (o.rnsToRing cof (o.toRns a)).2 = a % prod ps) := by
+  obtain ⟨e0, e1, e2, _, _, e5⟩ := int_ops_depend_only_on_last_moduli cof ops s rs 0
+  have r := int_garner_result hcof _ rs hco.isCoprime hcan
+  simp only at e0 e1 e2 e5 ⊢
+  refine ⟨?_, ?_, ?_, ?_⟩
+  · rw [e2]; exact eq_chineseRemainderOfList hco hcan r.range r.residues co
+  · rw [e1, e2]; exact digits_eq_mrDigits r.digits r.value r.range
+  · obtain ⟨_, _, _, _, _, e5'⟩ := int_ops_depend_only_on_last_moduli cof ops s rs ((intRun cof IntEnv.init ops s).rnsToRing cof rs).2
+    rw [e5', e2]; exact map_emod_eq_of_forall₂ r.residues
+  · intro a
+    obtain ⟨_, _, e2', _, _, e5'⟩ := int_ops_depend_only_on_last_moduli cof ops s
+      ((intRun cof IntEnv.init ops s).toRns a) a
+    rw [e2', e5']
+    have r' := int_garner_result hcof _ _ hco.isCoprime (canon_ringToRns _ a hcan.pos)
+    exact roundtrip_of_result _ hco.isCoprime hcan.pos a _ r'
+
+theorem rns_ops_conversions_meet_crt_spec (cof : Int → Int → Int) (hcof : CofOK cof) (ops : List RnsOp) (s : Nat) (rs : List Int)
+    (hco : PairwiseCoprime (rnsPrimesRun (fun _ => []) ops s)) (hcan : Canon (rnsPrimesRun (fun _ => []) ops s) rs)
+    (co : (natPairs (rnsPrimesRun (fun _ => []) ops s) rs).Pairwise (Function.onFun Nat.Coprime Prod.fst)) :
+    let o := rnsRun cof RnsEnv.init ops s
+    let ps := rnsPrimesRun (fun _ => []) ops s
+    let x := (o.rnsToRing cof rs).2
+    x = ((Nat.chineseRemainderOfList Prod.snd Prod.fst (natPairs ps rs) co : ℕ) : Int) ∧
+    (o.rnsToMixedRadix cof rs).2 = mrDigits ps x ∧ o.toRns x = rs ∧
+    (∀ a : Int, (o.rnsToRing cof (o.toRns a)).2 = a % prod ps) := by
+  obtain ⟨e0, e1, e2, _, e5⟩ := rns_ops_depend_only_on_last_moduli cof ops s rs 0
+  have r := rns_garner_result hcof _ rs hco.isCoprime hcan
+  simp only at e0 e1 e2 e5 ⊢
+  refine ⟨?_, ?_, ?_, ?_⟩
+  · rw [e2]; exact eq_chineseRemainderOfList hco hcan r.range r.residues co
+  · rw [e1, e2]; exact digits_eq_mrDigits r.digits r.value r.range
+  · obtain ⟨_, _, _, _, e5'⟩ := rns_ops_depend_only_on_last_moduli cof ops s rs ((rnsRun cof RnsEnv.init ops s).rnsToRing cof rs).2
+    rw [e5', e2]; exact map_emod_eq_of_forall₂ r.residues
+  · intro a
+    obtain ⟨_, _, e2', _, e5'⟩ := rns_ops_depend_only_on_last_moduli cof ops s
+      ((rnsRun cof RnsEnv.init ops s).toRns a) a
+    rw [e2', e5']
+    have r' := rns_garner_result hcof _ _ hco.isCoprime (canon_ringToRns _ a hcan.pos)
+    exact roundtrip_of_result _ hco.isCoprime hcan.pos a _ r'
+
+/-! ## Poly1CRT<Field> (polynomial CRT with the moduli `X - a_i`), `Field = Z/p`, `p` prime
+
+`DistinctMod p as := as.Pairwise (fun a b => a % p ≠ b % p)` — the moduli `X - a_i` are pairwise coprime;
+`CanonCoeffs p P` — every coefficient in `[0, p)`; a polynomial is its coefficient list (low degree first), two lists denote the
+same polynomial when they agree at every index (`getD i 0`: missing high coefficients are 0). -/
+
+theorem poly_cache_invariant (cof : Int → Int → Int) (h : PolyHist) :
+    (h.eval cof).ck = [] ∨ (h.eval cof).ck = polyComputeCk cof (h.eval cof).p (h.eval cof).points :=
+  polyHist_good cof h
+
+theorem poly_history_independent (cof : Int → Int → Int) (h1 h2 : PolyHist)
+    (hp : (h1.eval cof).p = (h2.eval cof).p) (hpts : (h1.eval cof).points = (h2.eval cof).points) (rs P : List Int) :
+    ((h1.eval cof).rnsToRing cof rs).2 = ((h2.eval cof).rnsToRing cof rs).2 ∧
+    (h1.eval cof).toRns P = (h2.eval cof).toRns P := by
+  rw [(polyHist_good cof h1).answer rs, (polyHist_good cof h2).answer rs, hp, hpts]
+  simp [PolySys.toRns, hp, hpts]
+
+/-- `RnsToRing` returns a polynomial of degree `< n` with canonical coefficients whose value at `a_i` is `r_i`
+    (so `RingToRns ∘ RnsToRing` is the identity on canonical residue vectors) -/
+theorem poly_crt_interpolates (p : ℕ) [Fact p.Prime] (cof : Int → Int → Int) (hcof : CofOK cof) (h : PolyHist)
+    (hq : (h.eval cof).p = (p : Int)) (rs : List Int) (hlen : rs.length = (h.eval cof).points.length)
+    (hd : DistinctMod (p : Int) (h.eval cof).points) :
+    (h.eval cof).toRns ((h.eval cof).rnsToRing cof rs).2 = rs.map (fun r => r % (p : Int)) ∧
+    (((h.eval cof).rnsToRing cof rs).2).length ≤ (h.eval cof).points.length ∧
+    CanonCoeffs (p : Int) ((h.eval cof).rnsToRing cof rs).2 := by
+  rw [(polyHist_good cof h).answer rs, hq]
+  obtain ⟨r1, r2, r3⟩ := polyRnsToRing_spec (p := p) hcof (h.eval cof).points rs hlen hd.cast
+  refine ⟨?_, r2, r3⟩
+  simp only [PolySys.toRns, hq]
+  exact polyRingToRns_of_forall₂ _ r1
+
+/-- … and it is the *unique* such polynomial: any `Q` of degree `< n` with the same values has the same coefficients mod `p` -/
+theorem poly_crt_unique (p : ℕ) [Fact p.Prime] (cof : Int → Int → Int) (hcof : CofOK cof) (h : PolyHist)
+    (hq : (h.eval cof).p = (p : Int)) (rs : List Int) (hlen : rs.length = (h.eval cof).points.length)
+    (hd : DistinctMod (p : Int) (h.eval cof).points)
+    (Q : List Int) (hQ : Q.length ≤ (h.eval cof).points.length)
+    (hQr : (h.eval cof).toRns Q = rs.map (fun r => r % (p : Int))) :
+    ∀ i : ℕ, (Q.getD i 0) % (p : Int) = (((h.eval cof).rnsToRing cof rs).2).getD i 0 := by
+  have hpos : (0 : Int) < p := by exact_mod_cast (Fact.out : p.Prime).pos
+  obtain ⟨e1, e2, e3⟩ := poly_crt_interpolates p cof hcof h hq rs hlen hd
+  intro i
+  have hev : ∀ a ∈ (h.eval cof).points,
+      (toP p Q).eval (a : ZMod p) = (toP p ((h.eval cof).rnsToRing cof rs).2).eval (a : ZMod p) := by
+    have := hQr.trans e1.symm
+    simp only [PolySys.toRns, polyRingToRns, hq] at this
+    intro a ha
+    have h1 := (List.map_inj_left.mp this) a ha
+    rw [← eval_toP, ← eval_toP, h1]
+  have := getD_emod_eq_of_toP_eq _ _ (toP_unique _ hd.cast Q _ hQ e2 hev) i
+  rw [this]
+  have hc := getD_canon hpos e3 i
+  exact Int.emod_eq_of_lt hc.1 hc.2
+
+/-- `RingToRns` then `RnsToRing` is the identity on polynomials of degree `<` the number of points -/
+theorem poly_crt_round_trip (p : ℕ) [Fact p.Prime] (cof : Int → Int → Int) (hcof : CofOK cof) (h : PolyHist)
+    (hq : (h.eval cof).p = (p : Int)) (hd : DistinctMod (p : Int) (h.eval cof).points)
+    (P : List Int) (hP : P.length ≤ (h.eval cof).points.length) (hc : CanonCoeffs (p : Int) P) :
+    ∀ i : ℕ, (((h.eval cof).rnsToRing cof ((h.eval cof).toRns P)).2).getD i 0 = P.getD i 0 := by
+  have hpos : (0 : Int) < p := by exact_mod_cast (Fact.out : p.Prime).pos
+  intro i
+  have hlen : ((h.eval cof).toRns P).length = (h.eval cof).points.length := by
+    simp [PolySys.toRns, polyRingToRns]
+  have hres : (h.eval cof).toRns P = ((h.eval cof).toRns P).map (fun r => r % (p : Int)) := by
+    simp only [PolySys.toRns, polyRingToRns, hq, List.map_map]
+    apply List.map_congr_left
+    intro a _
+    have hcn := polyEval_canon (p : Int) hpos P a
+    simp [Function.comp, Int.emod_eq_of_lt hcn.1 hcn.2]
+  have := poly_crt_unique p cof hcof h hq _ hlen hd P hP hres i
+  rw [← this]
+  have hci := getD_canon hpos hc i
+  exact Int.emod_eq_of_lt hci.1 hci.2
+
+/-- the same in terms of the observable (normalised) coefficient list the harness compares -/
+theorem poly_crt_round_trip_normalised (p : ℕ) [Fact p.Prime] (cof : Int → Int → Int) (hcof : CofOK cof) (h : PolyHist)
+    (hq : (h.eval cof).p = (p : Int)) (hd : DistinctMod (p : Int) (h.eval cof).points)
+    (P : List Int) (hP : P.length ≤ (h.eval cof).points.length) (hc : CanonCoeffs (p : Int) P) :
+    polyNorm ((h.eval cof).rnsToRing cof ((h.eval cof).toRns P)).2 = polyNorm P :=
+  polyNorm_eq_of_getD_eq _ _ (poly_crt_round_trip p cof hcof h hq hd P hP hc)
+
 /-! ## non-vacuity: the hypotheses are satisfiable and the conclusions are the expected numbers -/
 
 example : CofOK cofEuclid := cof_contract_satisfiable
@@ -231,5 +442,27 @@ example : (((RnsHist.assign (.useCk (.mk [3, 5])) (.copy (.useCk (.mk [13, 7, 11
   decide
 example : (0 : Int) < 13 ∧ Int.gcd 13 77 = 1 := by decide
 example : craApply (craInit cofEuclid 77 13) 13 38 6 = 6506 ∧ (6506 : Int) % (77 * 13) = 500 := by decide
+
+-- a program over three objects: object 2 ends on (7,11,13) after copies, a self-assignment and stale caches everywhere
+example :
+    let ops : List IntOp := [.construct 0 [3, 5], .toRing 0 [1, 2], .construct 1 [7, 11, 13], .product 1, .copyConstruct 2 0,
+      .toRing 2 [2, 4], .assign 2 1, .assign 2 2, .assign 0 2, .reciprocals 0]
+    intPrimesRun (fun _ => []) ops 2 = [7, 11, 13] ∧ ((intRun cofEuclid IntEnv.init ops 2).rnsToRing cofEuclid [3, 5, 6]).2 = 500 ∧
+    ((intRun cofEuclid IntEnv.init ops 0).rnsToMixedRadix cofEuclid [3, 5, 6]).2 = mrDigits [7, 11, 13] 500 := by decide
+example :
+    let ops : List RnsOp := [.construct 0 [3, 5], .toRing 0 [1, 2], .copyConstruct 1 0, .setPrimes 1 [13, 7, 11], .assign 0 1,
+      .toRing 1 [6, 3, 5], .setPrimes 1 [2, 9], .assign 2 0]
+    rnsPrimesRun (fun _ => []) ops 2 = [13, 7, 11] ∧ ((rnsRun cofEuclid RnsEnv.init ops 2).rnsToRing cofEuclid [6, 3, 5]).2 = 500 := by
+  decide
+example : PairwiseCoprime [7, 11, 13] ∧ natPairs [7, 11, 13] [3, 5, 6] = [(7, 3), (11, 5), (13, 6)] := by
+  unfold PairwiseCoprime; decide
+
+-- Poly1CRT over Z/7, points 1,2,4, residues of 3X²+5X+2
+instance : Fact (Nat.Prime 7) := ⟨by decide⟩
+example : DistinctMod ((7 : ℕ) : Int) ((PolyHist.copy (.useCk (.mk 7 [1, 2, 4]))).eval cofEuclid).points := by
+  unfold DistinctMod; decide
+example : CanonCoeffs ((7 : ℕ) : Int) [2, 5, 3] := by unfold CanonCoeffs; decide
+example : ((PolyHist.mk 7 [1, 2, 4]).eval cofEuclid).toRns [2, 5, 3] = [3, 3, 0] := by decide
+example : (((PolyHist.copy (.useCk (.mk 7 [1, 2, 4]))).eval cofEuclid).rnsToRing cofEuclid [3, 3, 0]).2 = [2, 5, 3] := by decide
 
 end Givaro.Props.C14
